@@ -12,7 +12,7 @@ m=json.load(open('$d/meta.json'))
 s=set(re.findall(r'\bC[0-9][0-9]\b',' '.join(m.get('detected_by',[]))))
 s.discard(m['property'])
 print(' '.join(sorted(s)))")
-  if ! git -C /repo apply --check $d/patch.diff 2>/dev/null; then
+  if ! git -C /repo apply --check "$(pwd)/$d/patch.diff" 2>/dev/null; then
     echo "$id: patch does not apply to HEAD any more (superseded by a later fix to the same lines)"
     continue
   fi
